@@ -60,10 +60,22 @@ def run(ctx, out):
                     if pend not in (None, 0xffff):
                         q["0625"].append([P.completion()] if rev == "ok" else [P.pr_abort(0xb5)])
                     cases.append((G.default_cfg(max=mx), ["new"] + calls, q, None, None))
+    # two tokens open, the FIRST finishing exchange refused with each of the 256 abort codes (B8 = "pre-authorisation not found" included):
+    # whatever the code, nothing of the clean-up (pending query, reversal of other receipts, end-of-day) may run while the second token is open
+    for code in range(256):
+        for f1 in ("cancel", "commit"):
+            f2 = ("cancel", "commit")[(code + (f1 == "commit")) % 2]
+            calls = [f"begin:{tok('a')}", f"begin:{tok('b')}", f"{f1}:{tok('a')}" + (":7" if f1 == "commit" else ""), f"{f2}:{tok('b')}" + (":9" if f2 == "commit" else "")]
+            q = {"0622": [ok_begin(11), ok_begin(12)], "0623q": [[P.pr_abort(0xb8, 0xffff)], [P.pr_abort(0xb8, 17 if code % 3 == 0 else 0xffff)]],
+                 "0650": [[P.completion()], [P.completion()]], "0625": [], "0623": []}
+            q["0625" if f1 == "cancel" else "0623"].append([P.pr_abort(code)])
+            q["0625" if f2 == "cancel" else "0623"].append([P.completion()] if f2 == "cancel" else ok_commit)
+            q["0625"].append([P.completion()])
+            cases.append((G.default_cfg(max=2), ["new"] + calls, q, None, None))
     ops, impl = run_histories(ctx, out, cases, "idle clean-up")
     # explicit shape oracle on the implementation's traffic: end-of-day (06 50) never while another token is open
     out.rule = ("histories begin..commit/cancel over 1 and 2 tokens x outcome of the finishing exchange (completed, aborted, commit completed without status information) x dangling pre-authorisation reported by the pending query "
                 f"(absent, FFFF, 17, 9999) x reversal outcome x end-of-day outcome (completion, completion after intermediate packets, {len(list(codes))} abort codes incl. A0). The client must send exactly: finishing request, "
                 "pending query 06 23 FFFF, reversal 06 25 of the reported receipt, 06 50 — each only after the previous one succeeded, nothing of it while a token is open — and report A0 as success and any other refusal as error. "
-                "implementation = model = specification")
+                "Two tokens open and the first finishing exchange refused with each of the 256 abort codes: no clean-up before the second token is finished. implementation = model = specification")
     out.samples = [ops[3][:500], {"op": ops[-1][:200], "impl": impl[-1][:300]}]
